@@ -71,7 +71,8 @@ Inductive outcome := Success | Failed (at_step : nat).
 
 (* k: index of the next call; pending: a status that is non-zero and has not been tested yet (index of the call that set it).
    A call entered with a pending status does nothing.  A tested non-zero status throws: the writer reports failure
-   (the scope guard then closes the file; that close has a status of its own and cannot change the outcome).
+   (the scope guard then deletes the incomplete file — fix C08_5; that call has a status of its own and cannot change the
+   outcome).
    Reaching the end with a pending, never tested status returns normally: the error is lost. *)
 Fixpoint run_steps (fails : nat -> bool) (k : nat) (pending : option nat) (l : list step) : outcome :=
   match l with
